@@ -327,6 +327,18 @@ theorem parseRegularQuantity_rel :
         refine Rel.bind (tokensSpanP_rel _ _ _ _) fun _ _ _ => ?_
         exact Rel.pure (α := α) (A := ParsedQSim cs.uws) ⟨hv, OptRel.some_some hx⟩
 
+omit hu hts in
+/-- `find?` on related lists (the copy in SimComp comes later in the import order) -/
+theorem LRel.find?_relQ {β γ : Type} {R : β → γ → Prop} {p : β → Bool} {q : γ → Bool} (hp : PredAgree R p q)
+    {l : List β} {m : List γ} (h : LRel R l m) : OptRel R (l.find? p) (m.find? q) := by
+  induction h with
+  | nil => exact OptRel.none_none
+  | cons h1 _ ih =>
+    simp only [List.find?_cons, hp _ _ h1]
+    split
+    · exact OptRel.some_some h1
+    · exact ih
+
 theorem parseAdvancedQuantity_rel :
     Rel cs ts' ts (parseAdvancedQuantity (α := α)) parseAdvancedQuantity (OptRel (ParsedQSim cs.uws)) := by
   unfold parseAdvancedQuantity
@@ -338,7 +350,8 @@ theorem parseAdvancedQuantity_rel :
   unfold wsComments
   refine Rel.bind (consumeWhile_rel hts _) fun _ _ _ => ?_
   refine Rel.bind (consumeWhile_rel hts _) fun vt' vt hvt => ?_
-  rcases hvt.getLast? with ⟨e', e⟩ | ⟨l', l, e', e, hl⟩
+  rcases (LRel.find?_relQ (tokSim_kindPres.agree (fun k => k != .blockComment)) hvt.reverse).elim with
+    ⟨e', e⟩ | ⟨l', l, e', e, hl⟩
   · rw [e', e]
     exact Rel.pure (α := α) OptRel.none_none
   rw [e', e]
